@@ -154,6 +154,20 @@ func genC13(r *Rand, n int, thorough bool, emit func(string)) {
 	}
 	offsets := []int{0, 0, 0, 1000000000, -1000000000, 1000000000000, -1000000000000, 1 << 60, -(1 << 60), 1712345678001234567, 9007199254740993}
 	for i := 0; i < n; i++ {
+		if i%83 == 20 {
+			// 3, 5, 6, 7 or 9 ascending, non-touching unit-step runs of two or more values each (an
+			// already normalised container whose block count is not a power of two)
+			k := r.PickInt([]int{3, 5, 6, 7, 9})
+			h := make([][3]int, k)
+			at := r.Range(-30, 30)
+			for j := range h {
+				ln := r.Range(1, 5)
+				h[j] = [3]int{at, at + ln, 1}
+				at += ln + r.Range(2, 6)
+			}
+			emit(rngsOp(r, h))
+			continue
+		}
 		if i%89 == 50 {
 			// a step at the edge of int64: one value, whatever the span
 			big := r.PickInt([]int{9223372036854775807, 9223372036854775806, 9223372036854775807 - 10, 1 << 62, 4611686018427387905})
